@@ -530,7 +530,8 @@ func vcRunC08(t *vcTrial, cfg vc08Cfg) {
 				t.Stat("second_flush_after_first_finished", 1)
 			} else if errors.Is(secondErr, ErrConcurrentAccess) {
 				rejected++
-			} else if !errors.Is(secondErr, ErrConnClosed) && firstErr == nil {
+			} else if !errors.Is(secondErr, ErrConnClosed) && firstErr == nil && cfg.Peer != "close" && cfg.Peer != "rst" {
+				// (a peer that closes or resets makes any later flush fail with whatever the kernel says)
 				t.Violate("C08", "second_flush_error", "a Flush issued while another was in progress returned %v (want ErrConcurrentAccess)", secondErr)
 			}
 		}
